@@ -45,14 +45,14 @@ reg('C04', engine='h_planners',
     level_text='stored cost vs harness-recomputed true cost, admissible bound, flag vs threshold, monotone best cost across '
                'continued solves, stated ranking order on planner output and synthetic multisets',
     technique='runtime monitoring: cost recomputation oracle + ranking order checker under ASan+UBSan')
-reg('C20', engine='h_planners', extra_engines=['h_control'], replicas={'quick': 2, 'thorough': 4},
+reg('C20', engine='h_planners', extra_engines=['h_control'], replicas={'quick': 3, 'thorough': 5},
     variants={'quick': ['asan', 'plain'], 'thorough': ['asan', 'plain', 'memcheck']},
     variant_scale={'memcheck': 0.025},   # valgrind: one world per planner + one RNG case
     rule='one case = one fresh process that sets the global seed and then either runs one single-threaded planner (geometric / '
          'multilevel: engine h_planners; the eight control-planner variants on three dynamical systems: engine h_control) on a '
          'generated world under an evaluation-count condition (fingerprint = status, every solution path byte for byte, '
          'evaluation count) or draws tables from 6 generators + samplers (fingerprint per generator); every case is executed '
-         'in 2 (thorough: 4) separate processes with different environment size / allocator settings and the fingerprints '
+         'in 3 (thorough: 5) separate processes with different environment size / allocator settings and the fingerprints '
          'must be identical (odd replicas run with MALLOC_PERTURB_ and one arena; variants asan and plain -O2); the thorough '
          'tier also runs one world per planner under valgrind memcheck and keys every uninitialised-value / invalid-access '
          'report; non-trivial = planner run that produced a solution (or an RNG case)',
